@@ -96,6 +96,22 @@ func gcInsideCompaction(t *rapid.T, c *Case) {
 	if rapid.Bool().Draw(t, "gcOpensFirst") {
 		c.Sched.OpSegs = [][2]int{{1, 1}, {0, 2}}
 	}
+	if rapid.IntRange(0, 2).Draw(t, "gcInterleaved") == 0 {
+		// both are cut once: the compactor (CompactAll) is stopped around its list rename, the
+		// collector (Clean) around its directory listing, then the compactor finishes (its
+		// post-commit deletions), then the collector - the order in which a cleanup that has
+		// just listed the directory finds files gone.  An open is 1+n filesystem calls for n
+		// tables, CompactAll reaches its list rename after another n+8, the collector then opens
+		// a one-table stack (2 calls) and Clean lists the directory with its fourth call; the
+		// cuts are drawn around those points.
+		n := len(c.Init)
+		c.Progs[0].Ops[1] = POp{Kind: KCompactAll}
+		c.Progs[1].Ops[1] = POp{Kind: KClean}
+		c.YieldOnWrite = false
+		k0 := 2*n + 9 + rapid.IntRange(-3, 3).Draw(t, "d0G")
+		k1 := 6 + rapid.IntRange(-2, 2).Draw(t, "d1G")
+		c.Sched = SchedSpec{Kind: "segments", Segs: [][2]int{{0, k0}, {1, k1}, {0, 400}, {1, 400}}}
+	}
 }
 
 func genC05base(t *rapid.T) Case {
